@@ -310,5 +310,7 @@ def sorted_tests(suite_or_case, unpack_outer=False):
         raise ValueError(f"Duplicate test ids detected: {pformat(duplicates)}")
 
     tests = _flatten_tests(suite_or_case, unpack_outer=unpack_outer)
-    tests.sort()
+    # Ids are unique, so the tests themselves are never compared.  A custom
+    # suite without any test has no id (None): keep those first, in order.
+    tests.sort(key=lambda item: (item[0] is not None, item[0] or ""))
     return unittest.TestSuite([test for (sort_key, test) in tests])
